@@ -112,7 +112,7 @@ def opclass_of_dims(d0, d1, u0=None, u1=None):
 
 def opclass(c1, c2):
     s = {c1, c2}
-    for tag, nm in (("ba", "bare-array"), ("bn", "bare-number"), ("b0", "bare-zero"), ("ql", "quantity-list"),
+    for tag, nm in (("ba", "bare-array"), ("bn", "bare-number"), ("b0", "bare-zero"), ("ql", "quantity-list"), ("qld", "dimensionless-quantity-list"),
                     ("dlp", "scaled-dimensionless-quantity"), ("dl", "dimensionless-quantity")):
         if tag in s:
             return nm
@@ -218,6 +218,10 @@ def batches(tier, seed):
         for i, pc in enumerate(chunks(pairs, 4)):
             b.append((f"convert/{i}", ("convert", {"pairs": [_ctx_tuple(*p) for p in pc], "tier": tier})))
         b.append(("offsets", ("offsets", {"pairs": OFFSET_UNITS, "others": ["m", "s", "J"], "tier": tier})))
+        rd = ["length", "time", "mass", "energy", "dimensionless"]
+        cases = [(x, y, sc) for sc in ("two-registries", "redefined", "cross") for x in rd for y in rd if x != y and not (sc == "cross" and "dimensionless" in (x, y))]
+        for i, cc in enumerate(chunks(cases, 4)):
+            b.append((f"registry/{i}", ("registry", {"cases": cc})))
         nrand = 4
     else:
         step = max(1, len(pairs) // 48)
@@ -234,6 +238,10 @@ def batches(tier, seed):
         for i, pc in enumerate(chunks(pairs, 24)):
             b.append((f"convert/{i}", ("convert", {"pairs": [_ctx_tuple(*p) for p in pc], "tier": tier})))
         b.append(("offsets", ("offsets", {"pairs": OFFSET_UNITS, "others": [u[0] for u in us[:12]], "tier": tier})))
+        rd = list(REG_DIMS)
+        cases = [(x, y, sc) for sc in ("two-registries", "redefined", "cross") for x in rd for y in rd if x != y and not (sc == "cross" and "dimensionless" in (x, y))]
+        for i, cc in enumerate(chunks(cases, 24)):
+            b.append((f"registry/{i}", ("registry", {"cases": cc})))
         nrand = 24
     for i in range(nrand):
         b.append((f"random/{i}", ("random", {"seed": seed, "tier": tier})))
@@ -264,7 +272,7 @@ def vals(role, shp, dt):
 
 QKINDS = ("same", "samedim", "diff", "dimless", "percent")
 KINDS9 = ["same", "samedim", "diff", "dimless", "percent", "bscalar", "barray", "zero", "qlist"]
-EXTRA_KINDS = ["zeroq", "barray-z", "qlist-diff", "qlist-mixed"]
+EXTRA_KINDS = ["zeroq", "barray-z", "qlist-diff", "qlist-mixed", "qlist-dl"]
 
 
 class Ctx:
@@ -350,15 +358,16 @@ def mk(ctx, kind, shp, role, dt):
         if shp == "1":
             return (np.zeros(3, dtype=dt) if role == "x" else [0, 0.0, 0]), ZERO, "b0"
         return np.zeros((2, 3), dtype=dt), ZERO, "b0"
-    if kind in ("qlist", "qlist-diff", "qlist-mixed"):
+    if kind in ("qlist", "qlist-diff", "qlist-mixed", "qlist-dl"):
         if shp != "1":
             return None
         v = vals(role, "1", dt)
         un = ctx.unyt
-        ks = {"qlist": ("same",) * 3, "qlist-diff": ("diff",) * 3, "qlist-mixed": ("same", "diff", "same")}[kind]
+        ks = {"qlist": ("same",) * 3, "qlist-diff": ("diff",) * 3, "qlist-mixed": ("same", "diff", "same"), "qlist-dl": ("dimless",) * 3}[kind]
         o = [un.unyt_quantity(np.array(x), ctx.U[k]) for x, k in zip(v, ks)]
         ds = {ctx.d[k] for k in ks}
-        return o, (ds.pop() if len(ds) == 1 else None), "ql"
+        d = ds.pop() if len(ds) == 1 else None
+        return o, d, ("qld" if d == ZERO else "ql")
     raise KeyError(kind)
 
 
@@ -378,9 +387,10 @@ def kinfo(ctx, kind, shp):
         return ZERO, "b0", False
     if shp != "1":
         return None
-    ks = {"qlist": ("same",), "qlist-diff": ("diff",), "qlist-mixed": ("same", "diff")}[kind]
+    ks = {"qlist": ("same",), "qlist-diff": ("diff",), "qlist-mixed": ("same", "diff"), "qlist-dl": ("dimless",)}[kind]
     ds = {ctx.d[k] for k in ks}
-    return (ds.pop() if len(ds) == 1 else None), "ql", False
+    d = ds.pop() if len(ds) == 1 else None
+    return d, ("qld" if d == ZERO else "ql"), False
 
 
 def is_unyt(o, un):
@@ -981,7 +991,7 @@ NOT_MERGING = {"apply_over_axes", "around", "array2string", "array_repr", "convo
                "asfarray", "isclose", "allclose"}
 
 AF_KINDS = ["same", "samedim", "diff", "dimless", "percent", "zeroq", "bscalar", "barray", "barray-z", "zero", "qlist", "qlist-diff",
-            "qlist-mixed"]
+            "qlist-mixed", "qlist-dl"]
 
 
 def af_mode(dX, cX, dA, flags):
@@ -1023,7 +1033,7 @@ def drive_arrayfn(J, payload, only=None):
                         # handlers that forward a keyword operand to NumPy without looking at it: one key for every kind of quantity
                         cls = {"ba": "bare-array", "bn": "bare-number", "b0": "bare-zero"}.get(cX, "quantity")
                     after_ok = None
-                    if "overwrite" in flags and mode == "must-raise" and cX in ("q", "dl", "dlp", "ql") and dX is not None:
+                    if "overwrite" in flags and mode == "must-raise" and cX in ("q", "dl", "dlp", "ql", "qld") and dX is not None:
                         after_ok = (lambda ops, r, dX=dX: hasattr(ops[0], "units") and udim(ops[0].units) == dX)
                     J.case(sub, name, "call", mode, build, ctx, (kind + xshp, dt), cls, (name, kind, dt),
                            f"{name} with X={kind}{SHAPES[xshp]} ({dt})", eq_want=False, after_ok=after_ok, free_reason=why, keyop=keyop)
@@ -1119,6 +1129,70 @@ def drive_convert(J, payload):
             convert_ctx(J, Ctx(un, ctx0.u[ka], ctx0.u[ka], ctx0.u[kb]), ["f8"], ROUTES[:10])
 
 
+# custom registries: the dimension of a user-defined symbol is what its definer said (name of the unyt.dimensions object -> own vector)
+REG_DIMS = {"length": ("L", "m"), "time": ("T", "s"), "mass": ("M", "g"), "energy": ("M L2 T-2", "J"), "temperature": ("K", "K"),
+            "velocity": ("L T-1", "mph"), "pressure": ("M L-1 T-2", "Pa"), "angle": ("A", "rad"), "frequency": ("T-1", "Hz"),
+            "current_mks": ("I", "A"), "area": ("L2", "ha"), "dimensionless": ("", "dimensionless")}
+REG_TEMPLATES = {"concatenate/[P,X]", "concatenate/[X,P]", "where/(c,P,X)", "stack/[P,P2,X]", "setitem/int", "setitem/slice=X", "setitem/mask=X0",
+                 "setitem/fancy=X", "setitem/2d-row=X", "clip/(P,X0,hi)", "copyto/where=", "linspace/(Pq,X0)", "searchsorted/(P,X)", "union1d/(P,X)",
+                 "isin/(P,X)", "insert/X0", "put/X", "unyt_array([Pq,X0])", "unyt_array([Pq,X0],uA)", "interp/(X,xp=P,fp)", "array_equal/(P,X)",
+                 "select/[P,X]", "choose/[P,X]", "fill_diagonal/X0", "putmask/X", "place/X"}
+
+
+def registry_contexts(unyt, X, Y, scenario):
+    """-> (warm ctx, judged ctx): the same spellings (user symbol -> SI unit of X) are commensurable in the first and not in the second.
+    two-registries: the symbol is an X in registry A and a Y in registry B; redefined: one registry, symbol removed and re-added as a Y;
+    cross: user symbol of registry A against the same symbol of registry B."""
+    from unyt.unit_registry import UnitRegistry
+    import unyt.dimensions as ud
+    dX, siX = REG_DIMS[X]
+    dY, siY = REG_DIMS[Y]
+    DX, DY = dims.D(dX), dims.D(dY)
+    if scenario == "redefined":
+        reg = UnitRegistry()
+        reg.add("blip", 2.0, getattr(ud, X))
+        ua_ = unyt.Unit("blip", registry=reg)
+        warm = Ctx.custom(unyt, {"same": ua_, "samedim": unyt.Unit(siX, registry=reg), "diff": unyt.Unit(siX)},
+                          {"same": "blip", "samedim": siX, "diff": siX}, {"same": DX, "samedim": DX, "diff": DX}, f"blip[{X}]|{siX}")
+
+        def judged():
+            reg.remove("blip")
+            reg.add("blip", 2.0, getattr(ud, Y))
+            ub_ = unyt.Unit("blip", registry=reg)
+            return Ctx.custom(unyt, {"same": ub_, "samedim": unyt.Unit(siY, registry=reg), "diff": unyt.Unit(siX)},
+                              {"same": "blip", "samedim": siY, "diff": siX}, {"same": DY, "samedim": DY, "diff": DX}, f"blip[{X}->{Y}]|{siX}")
+        return warm, judged
+    regA, regB = UnitRegistry(), UnitRegistry()
+    regA.add("tick", 2.0, getattr(ud, X))
+    regB.add("tick", 2.0, getattr(ud, Y))
+    ta, tb = unyt.Unit("tick", registry=regA), unyt.Unit("tick", registry=regB)
+    warm = Ctx.custom(unyt, {"same": ta, "samedim": unyt.Unit(siX, registry=regA), "diff": unyt.Unit(siX)},
+                      {"same": "tick", "samedim": siX, "diff": siX}, {"same": DX, "samedim": DX, "diff": DX}, f"tick[{X}]|{siX}")
+    if scenario == "cross":
+        return warm, (lambda: Ctx.custom(unyt, {"same": ta, "samedim": unyt.Unit(siX, registry=regA), "diff": tb},
+                                         {"same": "tick", "samedim": siX, "diff": "tick"}, {"same": DX, "samedim": DX, "diff": DY},
+                                         f"tick[{X}]|tick[{Y}]"))
+    return warm, (lambda: Ctx.custom(unyt, {"same": tb, "samedim": unyt.Unit(siY, registry=regB), "diff": unyt.Unit(siX)},
+                                     {"same": "tick", "samedim": siY, "diff": siX}, {"same": DY, "samedim": DY, "diff": DX},
+                                     f"tick[{Y}]|{siX} after tick[{X}]"))
+
+
+def drive_registry(J, payload):
+    """units whose dimension is not fixed by their spelling (user symbols of custom registries), after a history in which the
+    identically spelled operation was legitimate"""
+    un = J.unyt
+    for (X, Y, scenario) in payload["cases"]:
+        warm, judged = registry_contexts(un, X, Y, scenario)
+        for ctx in (warm, judged):
+            if callable(ctx):
+                ctx = ctx()
+            if scenario != "cross":
+                convert_ctx(J, ctx, ["f8", "i8"])    # string targets are only meaningful when B is a default-registry unit
+            drive_ufdims(J, {"pairs": [ctx], "tier": "quick", "forms": ["call", "operator", "out-q", "inplace-op", "outer"]})
+            drive_arrayfn(J, {"ctxs": [ctx], "dtypes": ["f8"]}, only=REG_TEMPLATES)
+    J.rec.sample({"registry-cases": payload["cases"][:4]})
+
+
 def drive_offsets(J, payload):
     """offset scales (degC, degF, lat, lon) take special branches before the dimension test: drive them against other dimensions"""
     un = J.unyt
@@ -1176,6 +1250,8 @@ def worker(batch, rec):
         drive_convert(J, payload)
     elif kind == "offsets":
         drive_offsets(J, payload)
+    elif kind == "registry":
+        drive_registry(J, payload)
     elif kind == "random":
         drive_random(J, bid, payload)
     else:
